@@ -80,3 +80,170 @@ def c15(ctx, rep):
     rep.cov["runtime_decision_pairs"] = len(sel) * len(inputs)
     rep.samples.append({"class": bytes.fromhex(sel[0][0]).decode("utf-8", "replace"), "go_table": sel[0][6]})
     rep.samples.append({"case": lines[1][:400]})
+
+# ------------------------------------------------------------------ C07 / C19 (PrepareGrammar)
+def model_prep_variant(ctx, f, pq):
+    q = subprocess.run([ctx.model(), "-pq", pq, "-prep", f], stdout=subprocess.PIPE, stderr=subprocess.PIPE, text=True, timeout=3000)
+    out = {}
+    for l in q.stdout.splitlines():
+        parts = l.split("|")
+        out[parts[0]] = set(parts[1].split(";"))
+    return out
+
+def run_prep(ctx, profile, n, runs):
+    tool = C.build_harness_tool(ctx.sc, "preptool")
+    p = C.run([tool, "-profile", profile, "-seed", str(ctx.seed), "-n", str(n), "-runs", str(runs)], timeout=3000)
+    f = ctx.sc.path("prep_%s.txt" % profile)
+    with open(f, "w") as fh:
+        fh.write(p.stdout)
+    q = subprocess.run([ctx.model(), "-prep", f], stdout=subprocess.PIPE, stderr=subprocess.PIPE, text=True, timeout=3000)
+    if q.returncode != 0:
+        raise RuntimeError("model -prep failed: " + q.stderr[-1000:])
+    real = {}
+    for l in p.stdout.splitlines():
+        parts = l.split("|")
+        real[parts[0]] = {"ast": parts[1], "outs": set(parts[2].split(";")), "peg": parts[3].replace("\x1f", "\n")}
+    model = {}
+    for l in q.stdout.splitlines():
+        parts = l.split("|")
+        model[parts[0]] = {"outs": set(parts[1].split(";")), "nopred": "nopred=1" in parts[2], "pred": " pred=1" in parts[2],
+                           "throw": "throw=1" in parts[2]}
+    return real, model
+
+def pigeon_verdict(ctx, peg, flags=()):
+    """exit status and stderr of the real tool on a grammar text"""
+    src = "{\npackage main\n}\n" + peg
+    p = subprocess.run([ctx.pigeon(), "-o", os.devnull] + list(flags), input=src, stdout=subprocess.PIPE,
+                       stderr=subprocess.PIPE, text=True, timeout=120)
+    return p.returncode, p.stderr
+
+def replay_c07_known(ctx, k):
+    rc, err = pigeon_verdict(ctx, k["grammar"])
+    return rc == 0          # still accepted without -support-left-recursion
+
+@prop("C07", replay_known=replay_c07_known)
+def c07(ctx, rep):
+    real, model = run_prep(ctx, "c07", ctx.q(400, 8000), ctx.q(12, 60))
+    allalts = model_prep_variant(ctx, ctx.sc.path("prep_c07.txt"), "000")     # the analysis with every alternative visited
+    known = {k["quirk"]: k["id"] for k in C.known_findings().get("findings", []) if k["property"] == "C07" and k.get("status") == "known"}
+    hits = collections.Counter()
+    accepted = []
+    for gid, r in real.items():
+        m = model.get(gid)
+        if m is None:
+            rep.violation("model produced no result for a grammar", {"grammar": r["peg"]}, found=False)
+            continue
+        if not r["outs"] <= m["outs"]:
+            rep.violation("builder.PrepareGrammar and Gen.prepare (all iteration orders) disagree",
+                          {"grammar": r["peg"], "real": sorted(r["outs"]), "model": sorted(m["outs"])}, found=False)
+        rejected = any(("have=1" in o) or o == "noleader" for o in r["outs"])
+        if not rejected:
+            accepted.append(gid)
+        if rejected and not m["pred"]:
+            rep.violation("a grammar without a left-recursive cycle is rejected",
+                          {"grammar": r["peg"], "real": sorted(r["outs"])}, found=True)
+        short = all(("have=1" in o) or o == "noleader" for o in allalts.get(gid, {"x"}))
+        if not rejected and m["pred"] and short and "choice_short" in known:
+            hits[known["choice_short"]] += 1
+        elif not rejected and m["nopred"]:
+            if "nullable_inner" in known:
+                hits[known["nullable_inner"]] += 1
+            else:
+                rep.violation("left recursion across a nullable prefix inside ?, * or + is not detected: the grammar is accepted without -support-left-recursion",
+                              {"grammar": r["peg"], "real": sorted(r["outs"]), "spec": "lr_cycle = true"}, found=True)
+        elif not rejected and m["throw"] and not m["pred"]:
+            if "throw_first" in known:
+                hits[known["throw_first"]] += 1
+            else:
+                rep.violation("re-entry of a rule through throw -> recovery expression is not detected",
+                              {"grammar": r["peg"], "real": sorted(r["outs"])}, found=True)
+        elif not rejected and m["pred"]:
+            if "pred_first" in known:
+                hits[known["pred_first"]] += 1
+            else:
+                rep.violation("left recursion through a lookahead predicate is not detected",
+                              {"grammar": r["peg"], "real": sorted(r["outs"])}, found=True)
+    # the command-line tool itself: build error without the flag iff a cycle is found
+    sample = list(real.items())[: ctx.q(60, 600)]
+    for gid, r in sample:
+        rc, err = pigeon_verdict(ctx, r["peg"])
+        rejected = any(("have=1" in o) or o == "noleader" for o in r["outs"])
+        if rejected != (rc != 0) or (rc != 0 and "left recursion" not in err and "no leadership" not in err):
+            rep.violation("pigeon's exit status / diagnostic does not match PrepareGrammar's verdict",
+                          {"grammar": r["peg"], "rc": rc, "stderr": err[:400], "prepare": sorted(r["outs"])}, found=True)
+        if "goroutine" in err or "panic:" in err:
+            rep.violation("pigeon printed a Go panic trace", {"grammar": r["peg"], "stderr": err[:600]}, found=True)
+    rep.cov["evaluations"] = len(real)
+    rep.cov["distinct_nontrivial"] = len({r["ast"] for r in real.values() if r["ast"].count("(ref ") >= 2})
+    rep.cov["distribution"] = {"rejected": len(real) - len(accepted), "accepted": len(accepted),
+                               "cycle_only_through_predicate": sum(1 for m in model.values() if m["pred"] and not m["nopred"]),
+                               "tool_runs": len(sample)}
+    if hits:
+        rep.cov["cases_attributed_to_known_findings"] = dict(hits)
+    for gid, r in list(real.items())[:3]:
+        rep.samples.append({"grammar": r["peg"], "real": sorted(r["outs"]), "model": sorted(model[gid]["outs"])})
+
+def replay_c19_known(ctx, k):
+    return getattr(ctx, "c19_order_dependent_seen", False) or c19_witness_reproduces(ctx, k)
+
+def c19_witness_reproduces(ctx, k):
+    outs = set()
+    src = "{\npackage main\n}\n" + k["grammar"]
+    for i in range(40):
+        p = subprocess.run([ctx.pigeon(), "-support-left-recursion"], input=src, stdout=subprocess.PIPE,
+                           stderr=subprocess.PIPE, text=True, timeout=120)
+        outs.add(p.stdout)
+        if len(outs) > 1:
+            return True
+    return False
+
+@prop("C19", replay_known=replay_c19_known)
+def c19(ctx, rep):
+    import hashlib
+    real, model = run_prep(ctx, "c07", ctx.q(300, 6000), ctx.q(24, 100))
+    known = {k["quirk"]: k["id"] for k in C.known_findings().get("findings", []) if k["property"] == "C19" and k.get("status") == "known"}
+    hits = collections.Counter()
+    for gid, r in real.items():
+        m = model.get(gid, {"outs": set()})
+        if not r["outs"] <= m["outs"]:
+            rep.violation("builder.PrepareGrammar and Gen.prepare (all iteration orders) disagree",
+                          {"grammar": r["peg"], "real": sorted(r["outs"]), "model": sorted(m["outs"])}, found=False)
+        if len(r["outs"]) > 1:
+            ctx.c19_order_dependent_seen = True
+            if "nullable_order" in known and len(m["outs"]) > 1:
+                hits[known["nullable_order"]] += 1
+            else:
+                rep.violation("repeated builds of one grammar inside one process give different left-recursion flags",
+                              {"grammar": r["peg"], "outcomes": sorted(r["outs"])}, found=True)
+    # whole tool: byte-identical output across repeated runs, all flag sets
+    flagsets = [[], ["-optimize-grammar"], ["-optimize-parser", "-optimize-basic-latin"], ["-support-left-recursion"],
+                ["-support-left-recursion", "-optimize-grammar"], ["-cache", "-nolint"]]
+    sample = list(real.items())[: ctx.q(40, 400)]
+    runs = ctx.q(6, 40)
+    nruns = 0
+    for gid, r in sample:
+        src = "{\npackage main\n}\n" + r["peg"]
+        for fl in flagsets:
+            hashes = set()
+            for i in range(runs):
+                p = subprocess.run([ctx.pigeon()] + fl, input=src, stdout=subprocess.PIPE, stderr=subprocess.PIPE, text=True, timeout=120)
+                nruns += 1
+                hashes.add((p.returncode, hashlib.sha256(p.stdout.encode()).hexdigest()))
+                if p.returncode != 0:
+                    break
+            if len(hashes) > 1:
+                m = model.get(gid, {"outs": set()})
+                if "-support-left-recursion" in fl and len(m["outs"]) > 1 and "nullable_order" in known:
+                    hits[known["nullable_order"]] += 1
+                    ctx.c19_order_dependent_seen = True
+                else:
+                    rep.violation("repeated runs of pigeon %s produce different output" % " ".join(fl),
+                                  {"grammar": r["peg"], "flags": fl, "distinct_outputs": len(hashes)}, found=True)
+    rep.cov["evaluations"] = len(real) + nruns
+    rep.cov["distinct_nontrivial"] = len({r["ast"] for r in real.values() if r["ast"].count("(ref ") >= 2})
+    rep.cov["distribution"] = {"grammars": len(real), "tool_runs": nruns,
+                               "order_dependent_in_model": sum(1 for m in model.values() if len(m["outs"]) > 1)}
+    if hits:
+        rep.cov["cases_attributed_to_known_findings"] = dict(hits)
+    for gid, r in list(real.items())[:2]:
+        rep.samples.append({"grammar": r["peg"], "real": sorted(r["outs"]), "model": sorted(model[gid]["outs"])})
